@@ -324,13 +324,28 @@ def run(ctx, prog):
             if not subs:
                 continue
             guard_groups = guard_sets(prog, cls, f)
+            access = {}
+            if iv is not None and f is iv:
+                # init_var works on vectors of constant length: every subscript is evaluated concretely (vector model of sa/terms.py)
+                regs = cat.registrations(prog, cls)
+                regmap = {r['name']: '.'.join(r['path'][1:]) for r in regs if r['name'] is not None and r['path'] and r['path'][0] == 'this'}
+                E = terms.Evaluator(prog, dyn_class=cls, scalar=scalar, regmap=regmap, opaque=('register_var', 'register_vec'))
+                E.vecmodel = True
+                E.run(iv)
+                access = E.trace.vec_access
             for c in subs:
                 n_sub += 1
                 v = strip(c['args'][0], casts=True)['n']
-                ok, why = subscript_bounded(f, c, v, guard_groups)
+                st = access.get(c['l'])
+                if st and st <= {'ok'}:
+                    ok, why = True, ''
+                elif st and 'oob' in st:
+                    ok, why = False, 'is outside [0, size) for the length the vector has at that point'
+                else:
+                    ok, why = subscript_bounded(f, c, v, guard_groups)
                 ctx.ob('C19.O6', '%s::%s|%s' % (short, f.n, c['l']), ok, c['l'], '%s::%s: %s[%s] %s' % (short, f.n, v, show(c['args'][1]), why),
                        sample='%s::%s %s[%s] bounded' % (short, f.n, v, show(c['args'][1])))
-    ctx.floor('member_vector_subscripts', n_sub, 40)
+    ctx.floor('member_vector_subscripts', n_sub, 3)
 
 
 def guard_sets(prog, cls, f):
